@@ -375,3 +375,70 @@ Proof.
   { intros p. apply apply_rule_total. }
   rewrite Hv, Hc. eexists; reflexivity.
 Qed.
+
+(* ---------- project level: every command gets exactly its own keys ---------- *)
+Lemma nodup_str_find (f : file) (g : fn_item) :
+  nodup_str (map (fun g => c_name (f_cmd g)) f) = true -> In g f ->
+  find (fun h => str_eqb (c_name (f_cmd h)) (c_name (f_cmd g))) f = Some g.
+Proof.
+  induction f as [|h f IH]; intros Hn Hin; [destruct Hin|].
+  cbn [map nodup_str] in Hn. apply andb_true_iff in Hn as [Hh Hn]. cbn [find].
+  destruct Hin as [->|Hin]; [rewrite str_eqb_refl; reflexivity|].
+  destruct (str_eqb (c_name (f_cmd h)) (c_name (f_cmd g))) eqn:E; [|apply IH; auto].
+  exfalso. apply str_eqb_eq in E. apply negb_true_iff in Hh.
+  assert (existsb (str_eqb (c_name (f_cmd h))) (map (fun g => c_name (f_cmd g)) f) = true) as Hc; [|congruence].
+  apply existsb_exists. exists (c_name (f_cmd g)). split; [apply in_map_iff; eauto|]. rewrite E. apply str_eqb_refl.
+Qed.
+
+Lemma generate_in_own (cf : cfg) (m : mode) (f : file) (c : cmd) :
+  nodup_str (map (fun g => c_name (f_cmd g)) f) = true -> In c (commands_of f) ->
+  generate_in cf m f c = generate cf m c.
+Proof.
+  intros Hn Hin. unfold commands_of in Hin. apply in_map_iff in Hin as (g & <- & Hg). apply filter_In in Hg as [Hg _].
+  unfold generate_in, generate, analyse_in, analyse, chan_source, find_fn.
+  rewrite (nodup_str_find f g Hn Hg). reflexivity.
+Qed.
+
+Theorem project_keys_thm (cf : cfg) (m : mode) (p : project) :
+  project_dom p = true ->
+  forall c r, In (c, r) (generate_project cf m p) -> kf_any cf c = false ->
+  exists g l, r = Ok g /\ invoke_keys g = Some l /\ Permutation (kb_of l) (spec_keys cf c).
+Proof.
+  intros Hd c r Hin Hk. unfold generate_project in Hin. apply in_flat_map in Hin as (f & Hf & Hin).
+  apply in_map_iff in Hin as (c' & Heq & Hc). inversion Heq; subst c' r. clear Heq.
+  pose proof (proj1 (forallb_forall _ _) Hd f Hf) as Hfd. unfold file_dom in Hfd. apply andb_true_iff in Hfd as [Hn Hall].
+  rewrite (generate_in_own cf m f c Hn Hc).
+  assert (cmd_dom c = true) as Hcd.
+  { unfold commands_of in Hc. apply in_map_iff in Hc as (g & <- & Hg). apply filter_In in Hg as [Hg _].
+    apply (proj1 (forallb_forall _ _) Hall g Hg). }
+  destruct (optional_ok_thm cf m c Hcd Hk) as (g & l & Hg & Hi & Hp). exists g, l. auto.
+Qed.
+
+(* the commands for which something is generated are exactly the functions carrying the attribute, each once *)
+Lemma project_commands (cf : cfg) (m : mode) (p : project) :
+  map fst (generate_project cf m p) = flat_map commands_of p.
+Proof.
+  unfold generate_project. induction p as [|f p IH]; [reflexivity|]. cbn [flat_map]. rewrite map_app, IH, map_map. cbn [fst].
+  rewrite map_id. reflexivity.
+Qed.
+
+(* a helper whose name extends a command's name, and a command whose name is a suffix of an earlier one, change nothing *)
+Definition ex_project : project :=
+  [ [ {| f_cmd := {| c_name := L "start_download"; c_macro_case := None;
+                     c_params := [mkp "url" (plain_t NOther); mkp "on_progress" (APath [] NChannel (Some [GType]))] |};
+         f_is_command := true |};
+      {| f_cmd := {| c_name := L "download"; c_macro_case := None;
+                     c_params := [mkp "file_id" (plain_t NOther); mkp "dest_path" (APath [] NOption (Some [GType]))] |};
+         f_is_command := true |};
+      {| f_cmd := {| c_name := L "download_helper"; c_macro_case := None;
+                     c_params := [mkp "ch" (APath [] NChannel (Some [GType]))] |}; f_is_command := false |} ];
+    [ {| f_cmd := {| c_name := L "download"; c_macro_case := None; c_params := [mkp "x" (APath [] NChannel (Some [GType]))] |};
+         f_is_command := false |} ] ].
+Lemma ex_project_ok :
+  project_dom ex_project = true /\
+  map (fun cr => (c_name (fst cr),
+                  match snd cr with Ok g => option_map kb_of (invoke_keys g) | Panic => None end))
+      (generate_project cfg_default Zod ex_project)
+  = [ (L "start_download", Some [(L "url", false); (L "onProgress", false)]);
+      (L "download", Some [(L "fileId", false); (L "destPath", true)]) ].
+Proof. vm_compute. split; reflexivity. Qed.
